@@ -100,3 +100,286 @@ Proof.
   reflexivity.
 Qed.
 
+
+(* ---------- stack operations on shapes ---------- *)
+Definition fo (o : open_el) : lname * Z := (lname_of_str (e_name (o_el o)), Z.of_nat (length (o_children o))).
+Definition fi (it : stack_item) : lname * Z := (si_name it, si_children it).
+Lemma tshape_eq t : tshape t = (Z.of_nat (length (t_root_children t)), rev (map fo (t_open t))).
+Proof. reflexivity. Qed.
+Lemma shape_eq s : shape s = (vs_root_children s, map fi (vs_items s)).
+Proof. reflexivity. Qed.
+
+Lemma map_last_snoc {A} (h : A -> A) l x : Selectors.map_last h (l ++ [x]) = l ++ [h x].
+Proof. unfold Selectors.map_last. rewrite rev_app_distr. cbn [rev app]. rewrite rev_involutive. reflexivity. Qed.
+
+Definition bump (it : stack_item) : stack_item := mkSI (si_name it) (si_data it) (si_jumps it) (si_hjumps it) (inc32 (si_children it)).
+Lemma add_child_items_nil s ln : vs_items s = [] ->
+  vs_items (stack_add_child s ln) = [] /\ vs_root_children (stack_add_child s ln) = inc32 (vs_root_children s).
+Proof. intros H. unfold stack_add_child. rewrite H. cbn [vs_typed vs_items vs_root_children]. destruct (vs_typed s); cbn; auto. Qed.
+Lemma add_child_items_snoc s ln l x : vs_items s = l ++ [x] ->
+  vs_items (stack_add_child s ln) = l ++ [bump x] /\ vs_root_children (stack_add_child s ln) = vs_root_children s.
+Proof.
+  intros H. unfold stack_add_child. rewrite H.
+  destruct (l ++ [x]) as [|i0 rest] eqn:E; [destruct l; discriminate|]. rewrite <- E. clear E.
+  cbn [vs_typed vs_items vs_root_children]. fold bump. rewrite map_last_snoc. destruct (vs_typed s); cbn; auto.
+Qed.
+Lemma build_state_cumulative s ln : ss_cumulative (build_state s ln) =
+  match rev (vs_items s) with [] => vs_root_children s | it :: _ => si_children it end.
+Proof.
+  unfold build_state. cbn [ss_cumulative]. destruct (vs_items s) as [|i0 rest] eqn:E; [reflexivity|].
+  rewrite <- E. destruct (vs_items s) as [|a l] using rev_ind; [discriminate|]. rewrite last_last, rev_app_distr. reflexivity.
+Qed.
+
+(* the parent's child list grows by one *)
+Definition add_child_tree (t : tree_state) (name : bytes) : tree_state :=
+  match t.(t_open) with
+  | o :: r => mkTree (mkOpen o.(o_el) (o.(o_children) ++ [name]) :: r) t.(t_root_children)
+  | [] => mkTree [] (t.(t_root_children) ++ [name]) end.
+Definition siblings (t : tree_state) : list bytes := match t.(t_open) with o :: _ => o.(o_children) | [] => t.(t_root_children) end.
+
+Lemma shape_add_child s t ln name : shape s = tshape t -> small (length (siblings t)) ->
+  shape (stack_add_child s ln) = tshape (add_child_tree t name) /\
+  ss_cumulative (build_state (stack_add_child s ln) ln) = Z.of_nat (S (length (siblings t))).
+Proof.
+  rewrite shape_eq, tshape_eq. intros E Hs. injection E as Er Ei.
+  unfold add_child_tree, siblings in *. rewrite build_state_cumulative, shape_eq, tshape_eq.
+  destruct (t_open t) as [|o r] eqn:Eo; cbn [map rev] in Ei.
+  - destruct (vs_items s) eqn:Es; [|discriminate].
+    destruct (add_child_items_nil s ln Es) as [H1 H2]. rewrite H1, H2, Er, inc32_small by exact Hs.
+    cbn [t_open t_root_children map rev]. rewrite app_length. cbn [length]. rewrite Nat.add_1_r. split; reflexivity.
+  - apply map_eq_app in Ei. destruct Ei as [l1 [l2 [Es [E1 E2]]]].
+    destruct l2 as [|x [|y l2]]; try discriminate. cbn [map] in E2. unfold fi at 1, fo in E2. injection E2 as En Ec.
+    destruct (add_child_items_snoc s ln l1 x Es) as [H1 H2]. rewrite H1, H2, Er.
+    cbn [t_open t_root_children map rev o_el o_children]. rewrite map_app, rev_app_distr. cbn [map rev app].
+    unfold fi at 2, fo at 2, bump. cbn [si_name si_children o_el o_children].
+    rewrite En, Ec, inc32_small by exact Hs. rewrite app_length. cbn [length]. rewrite Nat.add_1_r, E1. split; reflexivity.
+Qed.
+
+(* pushing the element that stays open *)
+Lemma shape_push s t it name el isz mi other mx s' ch :
+  shape s = tshape t -> si_name it = lname_of_str name -> si_children it = 0%Z -> e_name el = name ->
+  stack_push s it isz mi other mx = (s', ch, true) ->
+  shape s' = tshape (mkTree (mkOpen el [] :: t_open t) (t_root_children t)).
+Proof.
+  rewrite !shape_eq, !tshape_eq. intros E Hn Hc He Hp. injection E as Er Ei.
+  assert (Hi : vs_items s' = vs_items s ++ [it] /\ vs_root_children s' = vs_root_children s).
+  { unfold stack_push in Hp. destruct (length (vs_items s) <? vs_cap s).
+    - inversion Hp; subst; split; reflexivity.
+    - destruct (_ <=? _)%N; inversion Hp; subst; split; reflexivity. }
+  destruct Hi as [H1 H2]. rewrite H1, H2, Er, map_app, Ei. cbn [t_open t_root_children map rev]. unfold fi, fo.
+  cbn [o_el o_children length map]. rewrite Hn, Hc, He. reflexivity.
+Qed.
+
+(* popping: the last item whose name matches = the innermost open element of that name *)
+Lemma rposition_app items ln : forall x i acc,
+  rposition (items ++ [x]) ln i acc = if lname_eqb (si_name x) ln then Some (i + length items) else rposition items ln i acc.
+Proof.
+  induction items as [|y r IH]; intros x i acc; cbn [app rposition length].
+  - rewrite Nat.add_0_r. reflexivity.
+  - rewrite IH. destruct (lname_eqb (si_name x) ln); [f_equal; lia | reflexivity].
+Qed.
+Lemma pop_matches_close items l ln name :
+  map fi items = rev (map fo l) -> ln = lname_of_str name ->
+  match close_to name l with
+  | Some rest => rposition items ln 0 None = Some (length rest) /\ map fi (firstn (length rest) items) = rev (map fo rest)
+  | None => rposition items ln 0 None = None
+  end.
+Proof.
+  intros E ->. revert items E. induction l as [|o r IH]; intros items E; cbn [close_to].
+  - cbn in E. destruct items; [reflexivity | discriminate].
+  - cbn [map rev] in E. apply map_eq_app in E. destruct E as [l1 [l2 [Es [E1 E2]]]].
+    destruct l2 as [|x [|y l2]]; try discriminate. cbn [map] in E2. unfold fi at 1, fo in E2. injection E2 as En Ec. subst items.
+    rewrite rposition_app, En, local_name_eq_is_case_insensitive_name_eq. fold (name_eq (e_name (o_el o)) name).
+    destruct (name_eq (e_name (o_el o)) name).
+    + assert (Hl : length l1 = length r) by (rewrite <- (map_length fi l1), E1, rev_length, map_length; reflexivity).
+      rewrite Hl. split; [reflexivity|]. rewrite <- Hl, firstn_app, Nat.sub_diag, firstn_all. cbn [firstn]. rewrite app_nil_r. exact E1.
+    + specialize (IH l1 E1). destruct (close_to name r) as [rest|].
+      * destruct IH as [I1 I2]. split; [exact I1|].
+        assert (Hle : length rest <= length l1).
+        { apply (f_equal (@length _)) in I2. rewrite map_length, rev_length, map_length, firstn_length in I2. lia. }
+        rewrite firstn_app. replace (length rest - length l1) with 0 by lia. cbn [firstn]. rewrite app_nil_r. exact I2.
+      * exact IH.
+Qed.
+Lemma shape_pop s t ln name s' popped : shape s = tshape t -> ln = lname_of_str name ->
+  stack_pop_up_to s ln = (s', popped) -> shape s' = tshape (on_end t name).
+Proof.
+  rewrite !shape_eq. intros E Hl Hp. rewrite tshape_eq in E. injection E as Er Ei.
+  pose proof (pop_matches_close (vs_items s) (t_open t) ln name Ei Hl) as H.
+  unfold stack_pop_up_to in Hp. unfold on_end. destruct (close_to name (t_open t)) as [rest|].
+  - destruct H as [H1 H2]. rewrite H1 in Hp. inversion Hp; subst s' popped; clear Hp.
+    rewrite tshape_eq. cbn [vs_root_children vs_items t_open t_root_children]. rewrite Er, H2. reflexivity.
+  - rewrite H in Hp. inversion Hp; subst s' popped. rewrite tshape_eq, Er, Ei. reflexivity.
+Qed.
+
+(* ---------- the controller level: one start tag (hint + optional attribute request), one end tag ---------- *)
+From LolModel Require Import Machine Rewriter.
+From LolProofs Require Import Scope.
+
+Lemma sm_step_stack wc c i : r_stack (sm_step wc c i) = r_stack c /\ r_prog (sm_step wc c i) = r_prog c.
+Proof. unfold sm_step. destruct (nth_error (r_locators c) i); split; reflexivity. Qed.
+Lemma start_matching_stack ids : forall c wc, r_stack (start_matching c ids wc) = r_stack c /\ r_prog (start_matching c ids wc) = r_prog c.
+Proof.
+  intros c wc. rewrite start_matching_fold. revert c. induction ids as [|i ids IH]; intros c; cbn [fold_left]; [split; reflexivity|].
+  destruct (IH (sm_step wc c i)) as [H1 H2]. destruct (sm_step_stack wc c i) as [H3 H4]. rewrite H1, H2, H3, H4. split; reflexivity.
+Qed.
+Lemma st_step_stack c i : r_stack (st_step c i) = r_stack c /\ r_prog (st_step c i) = r_prog c.
+Proof. unfold st_step. destruct (nth_error (r_locators c) i); split; reflexivity. Qed.
+Lemma stop_matching_stack c d : r_stack (stop_matching c d) = r_stack c /\ r_prog (stop_matching c d) = r_prog c.
+Proof.
+  unfold stop_matching. fold st_step. cbn [rset_handlers r_stack r_prog].
+  generalize (ed_matched d). intros ids. revert c. induction ids as [|i ids IH]; intros c; cbn [fold_left]; [split; reflexivity|].
+  destruct (IH (st_step c i)) as [H1 H2]. destruct (st_step_stack c i) as [H3 H4]. rewrite H1, H2, H3, H4. split; reflexivity.
+Qed.
+
+Definition stays_open (name : bytes) (n : ns) (sc : bool) : bool := if ns_eqb n Html then negb (is_void_name name) else negb sc.
+Definition after_start (t : tree_state) (name : bytes) (n : ns) (sc : bool) : tree_state :=
+  snd (on_start t name n [] sc).
+Lemma after_start_eq t name n sc : after_start t name n sc =
+  let t1 := add_child_tree t name in
+  if stays_open name n sc then mkTree (mkOpen (fst (on_start t name n [] sc)) [] :: t_open t1) (t_root_children t1) else t1.
+Proof.
+  unfold after_start, on_start, stays_open, add_child_tree. cbn [snd fst].
+  destruct (if ns_eqb n Html then negb (is_void_name name) else negb sc); destruct (t_open t); reflexivity.
+Qed.
+Lemma on_start_name t name n attrs sc : e_name (fst (on_start t name n attrs sc)) = name.
+Proof. reflexivity. Qed.
+
+Lemma finish_exec_shape c ext ec c' f t name el :
+  shape (r_stack c) = tshape t -> si_name (ec_item ec) = lname_of_str name -> si_children (ec_item ec) = 0%Z -> e_name el = name ->
+  finish_exec c ext ec = (c', FOk f) ->
+  shape (r_stack c') = tshape (if ec_with_content ec then mkTree (mkOpen el [] :: t_open t) (t_root_children t) else t) /\ r_prog c' = r_prog c.
+Proof.
+  intros Hsh Hn Hc He. unfold finish_exec.
+  destruct (start_matching_stack (ed_matched (si_data (ec_item ec))) c (ec_with_content ec)) as [S1 S2].
+  destruct (ec_with_content ec).
+  - destruct (stack_push _ _ _ _ _ _) as [[s' charged] ok] eqn:Ep. destruct ok; intro E; [|discriminate E]. injection E as <- _.
+    cbn [rset_vm r_stack r_prog]. split; [|exact S2]. rewrite S1 in Ep. exact (shape_push _ _ _ name el _ _ _ _ _ _ Hsh Hn Hc He Ep).
+  - intro E. injection E as <- _. rewrite S1. split; [exact Hsh | exact S2].
+Qed.
+
+Definition vm_on_start (c : rwc) (ext : N) (name : bytes) (n : ns) (attrs : list attr_view) (sc : bool) : option rwc :=
+  let (c1, r) := rw_start_tag c ext name (hash_of name) n in
+  match r with
+  | SFlags _ => Some c1
+  | SInfoRequest => match rw_aux_info c1 ext attrs sc with (c2, FOk _) => Some c2 | _ => None end
+  | SErr _ => None
+  end.
+
+Theorem start_tag_keeps_the_stack_a_tree c ext name n attrs sc c' t :
+  r_prog c <> None -> shape (r_stack c) = tshape t -> small (length (siblings t)) ->
+  vm_on_start c ext name n attrs sc = Some c' ->
+  shape (r_stack c') = tshape (after_start t name n sc) /\ r_prog c' <> None.
+Proof.
+  intros Hp Hsh Hsm. unfold vm_on_start, rw_start_tag.
+  destruct (r_prog c) as [prog|] eqn:Eprog; [|contradiction].
+  change (lname_of name (hash_of name)) with (lname_of_str name).
+  set (ln := lname_of_str name).
+  destruct (shape_add_child (r_stack c) t ln name Hsh Hsm) as [Hs1 _].
+  set (s1 := stack_add_child (r_stack c) ln) in *.
+  set (c1 := rset_vm c s1 (r_vm_charged c)).
+  assert (Hc1 : shape (r_stack c1) = tshape (add_child_tree t name)) by exact Hs1.
+  assert (Hp1 : r_prog c1 = Some prog) by exact Eprog.
+  rewrite after_start_eq. cbn zeta.
+  set (el := fst (on_start t name n [] sc)).
+  set (ec0 := mkEC (mkSI ln (mkED [] None false) [] [] 0%Z) true n).
+  unfold get_stack_directive, stays_open. change (is_void ln) with (is_void (lname_of_str name)). rewrite is_void_is_void_name.
+  destruct (ns_eqb n Html) eqn:Ens.
+  - (* HTML namespace: void elements are popped immediately *)
+    set (wc := negb (is_void_name name)).
+    assert (Hdir : forall (k : stack_directive -> option rwc), True) by (intros; exact I). clear Hdir.
+    set (ec := mkEC (ec_item ec0) wc n).
+    assert (Hgo : match exec_without_attrs prog s1 ec with
+                  | WoPanic => True
+                  | WoBail ec' a r =>
+                      forall c'', (match rw_aux_info (rset_pending c1 (Some (ec', Some (a, r)))) ext attrs sc with (c2, FOk _) => Some c2 | _ => None end) = Some c'' ->
+                      shape (r_stack c'') = tshape (if wc then mkTree (mkOpen el [] :: t_open (add_child_tree t name)) (t_root_children (add_child_tree t name)) else add_child_tree t name) /\ r_prog c'' <> None
+                  | WoDone ec' =>
+                      forall c'' f, finish_exec c1 ext ec' = (c'', FOk f) ->
+                      shape (r_stack c'') = tshape (if wc then mkTree (mkOpen el [] :: t_open (add_child_tree t name)) (t_root_children (add_child_tree t name)) else add_child_tree t name) /\ r_prog c'' <> None
+                  end).
+    { pose proof (exec_without_attrs_sig prog s1 ec) as Hsig.
+      destruct (exec_without_attrs prog s1 ec) as [ec'|ec' a r|]; [| |exact I].
+      - intros c'' f Ef. unfold esig in Hsig. injection Hsig as H1 H2 H3 H4.
+        destruct (finish_exec_shape c1 ext ec' c'' f (add_child_tree t name) name el Hc1 H1 H2 eq_refl Ef) as [A B].
+        rewrite H3 in A. split; [exact A | rewrite B, Hp1; discriminate].
+      - intros c''. unfold rw_aux_info. cbn [rset_pending r_prog r_pending]. rewrite Hp1.
+        destruct (recover prog _ ec' a r attrs) as [ec''|] eqn:Er; [|discriminate].
+        pose proof (recover_sig _ _ _ _ _ _ _ Er) as Hs2. unfold esig in Hsig, Hs2. rewrite Hsig in Hs2. injection Hs2 as H1 H2 H3 H4.
+        destruct (finish_exec _ ext ec'') as [c2 fr] eqn:Ef. destruct fr; [|discriminate]. intro E; inversion E; subst c2.
+        destruct (finish_exec_shape (rset_pending (rset_pending c1 (Some (ec', Some (a, r)))) None) ext ec'' c'' f (add_child_tree t name) name el Hc1 H1 H2 eq_refl Ef) as [A B].
+        rewrite H3 in A. split; [exact A | rewrite B; cbn [rset_pending r_prog]; rewrite Hp1; discriminate]. }
+    destruct (is_void_name name) eqn:Ev; cbn [negb] in *; unfold wc, ec in Hgo; rewrite ?Ev in Hgo; cbn [negb] in Hgo.
+    + destruct (exec_without_attrs prog s1 _) as [ec'|ec' a r|]; [| |discriminate].
+      * destruct (finish_exec c1 ext ec') as [c2 fr] eqn:Ef. destruct fr; [|discriminate]. intro E; inversion E; subst. exact (Hgo c' f eq_refl).
+      * intro E. exact (Hgo c' E).
+    + destruct (exec_without_attrs prog s1 _) as [ec'|ec' a r|]; [| |discriminate].
+      * destruct (finish_exec c1 ext ec') as [c2 fr] eqn:Ef. destruct fr; [|discriminate]. intro E; inversion E; subst. exact (Hgo c' f eq_refl).
+      * intro E. exact (Hgo c' E).
+  - (* foreign content: the self-closing flag decides, known only with the attributes *)
+    unfold rw_aux_info. cbn [rset_pending r_prog r_pending]. rewrite Hp1.
+    destruct (exec_all_with_attrs prog _ _ attrs) as [ec'|] eqn:Ee; [|discriminate].
+    pose proof (exec_all_with_attrs_sig _ _ _ _ _ Ee) as Hsig. unfold esig in Hsig. cbn [ec_item ec_with_content ec_ns ec0 si_name si_children] in Hsig. injection Hsig as H1 H2 H3 H4.
+    destruct (finish_exec _ ext ec') as [c2 fr] eqn:Ef. destruct fr; [|discriminate]. intro E; inversion E; subst c2.
+    destruct (finish_exec_shape (rset_pending (rset_pending c1 (Some (ec0, None))) None) ext ec' c' f (add_child_tree t name) name el Hc1 H1 H2 eq_refl Ef) as [A B].
+    rewrite H3 in A. split; [exact A | rewrite B; cbn [rset_pending r_prog]; rewrite Hp1; discriminate].
+Qed.
+
+Theorem end_tag_keeps_the_stack_a_tree c name h c' f t :
+  h = hash_of name -> r_prog c <> None -> shape (r_stack c) = tshape t -> rw_end_tag c name h = (c', f) ->
+  shape (r_stack c') = tshape (on_end t name) /\ r_prog c' <> None.
+Proof.
+  intros -> Hp Hsh. unfold rw_end_tag. destruct (r_prog c) as [prog|] eqn:Eprog; [|contradiction].
+  change (lname_of name (hash_of name)) with (lname_of_str name).
+  destruct (stack_pop_up_to (r_stack c) (lname_of_str name)) as [s' popped] eqn:Epop. intro E; inversion E; subst; clear E.
+  assert (Hst : forall l c0, r_stack (fold_left stop_matching l c0) = r_stack c0 /\ r_prog (fold_left stop_matching l c0) = r_prog c0).
+  { induction l as [|d l IH]; intros c0; cbn [fold_left]; [split; reflexivity|].
+    destruct (IH (stop_matching c0 d)) as [A B]. destruct (stop_matching_stack c0 d) as [X Y]. rewrite A, B, X, Y. split; reflexivity. }
+  destruct (Hst popped (rset_vm c s' (r_vm_charged c))) as [A B]. rewrite A, B. cbn [rset_vm r_stack r_prog].
+  split; [eapply shape_pop; [exact Hsh | reflexivity | exact Epop] | rewrite Eprog; discriminate].
+Qed.
+
+(* ---------- any sequence of tags ---------- *)
+Inductive tagop := OpStart (name : bytes) (n : ns) (attrs : list attr_view) (sc : bool) | OpEnd (name : bytes).
+Fixpoint vm_run (c : rwc) (ext : N) (ops : list tagop) : option rwc :=
+  match ops with
+  | [] => Some c
+  | OpStart name n attrs sc :: r => match vm_on_start c ext name n attrs sc with Some c1 => vm_run c1 ext r | None => None end
+  | OpEnd name :: r => vm_run (fst (rw_end_tag c name (hash_of name))) ext r
+  end.
+Fixpoint tree_run (t : tree_state) (ops : list tagop) : tree_state :=
+  match ops with
+  | [] => t
+  | OpStart name n _ sc :: r => tree_run (after_start t name n sc) r
+  | OpEnd name :: r => tree_run (on_end t name) r
+  end.
+(* no element ever gets 2^31 - 1 children (the i32 counters do not wrap) *)
+Fixpoint never_wraps (t : tree_state) (ops : list tagop) : Prop :=
+  match ops with
+  | [] => True
+  | OpStart name n _ sc :: r => small (length (siblings t)) /\ never_wraps (after_start t name n sc) r
+  | OpEnd name :: r => never_wraps (on_end t name) r
+  end.
+
+Theorem vm_stack_is_the_tag_induced_tree ops : forall c ext t c',
+  r_prog c <> None -> shape (r_stack c) = tshape t -> never_wraps t ops -> vm_run c ext ops = Some c' ->
+  shape (r_stack c') = tshape (tree_run t ops).
+Proof.
+  induction ops as [|op r IH]; intros c ext t c' Hp Hsh Hw Hrun; cbn [vm_run tree_run never_wraps] in *.
+  - inversion Hrun; subst. exact Hsh.
+  - destruct op as [name n attrs sc|name].
+    + destruct Hw as [Hs Hw]. destruct (vm_on_start c ext name n attrs sc) as [c1|] eqn:E; [|discriminate].
+      destruct (start_tag_keeps_the_stack_a_tree c ext name n attrs sc c1 t Hp Hsh Hs E) as [A B].
+      exact (IH c1 ext _ c' B A Hw Hrun).
+    + destruct (rw_end_tag c name (hash_of name)) as [c1 f] eqn:E.
+      destruct (end_tag_keeps_the_stack_a_tree c name _ c1 f t eq_refl Hp Hsh E) as [A B].
+      exact (IH c1 ext _ c' B A Hw Hrun).
+Qed.
+
+(* the index :nth-child is evaluated with is the element's 1-based position among its siblings *)
+Theorem nth_child_index_is_the_sibling_position s t name n attrs sc :
+  shape s = tshape t -> small (length (siblings t)) ->
+  ss_cumulative (build_state (stack_add_child s (lname_of_str name)) (lname_of_str name)) = e_index (fst (on_start t name n attrs sc)).
+Proof.
+  intros Hsh Hs. destruct (shape_add_child s t (lname_of_str name) name Hsh Hs) as [_ H]. rewrite H.
+  unfold on_start, siblings. cbn [fst e_index]. destruct (t_open t); reflexivity.
+Qed.
